@@ -67,3 +67,19 @@ _add(
          "reported with the offending parameters.",
     technique="runtime monitoring: algebraic-law (metamorphic) invariants evaluated on the real helper functions over dense grids",
 )
+
+_add(
+    "C19",
+    rule="one evaluation = one generator seed x one encoder configuration (exponential-interval / Bernoulli / "
+         "Poisson-interval / inhomogeneous Bernoulli; functional form or Module; offline or online; dt in {1,0.5}; "
+         "refractory None, dt, 2dt, 5dt; compensation on/off; max frequency 5..900 Hz inside the documented "
+         "frequency*refrac<1000 domain; 1-300 steps; intensities in [0,1] with exact zeros and ones), run twice from the "
+         "same generator state. Non-trivial: the refractory encoder, or any case with a zero-intensity element; "
+         "distinct = (encoder, online, module, dt, refractory, compensation, steps class, zero pattern, rank) abstractions.",
+    required=["shape_dtype_checks", "reproducibility_checks", "zero_intensity_elements", "refractory_gaps_checked"],
+    floor={"quick": 200, "thorough": 400},
+    text="Held on every generator seed explored: the real encoders are run over a seed sweep and every output is "
+         "checked for dtype, shape / slice count, silence of zero-intensity elements, the minimum spike gap of the "
+         "refractory encoder (on indices and through inferno.isi) and bit-identical reproduction from a cloned generator state.",
+    technique="runtime monitoring: output invariants on the real encoders over a generator-seed sweep",
+)
